@@ -338,7 +338,16 @@ func c09Resync(p *chk.Prog, r *chk.Report) {
 			w := g.MustPass(chk.Site{}, func(n ast.Node) bool { return n == store[0].Top }, false, sn.ContainsPat("isNodeAvailableChanged(RECV.nodes, N)", chk.H("N", node)))
 			x.Check("SetNode:compare-before-overwrite", posOf(w, sn), !w.Found, "", "the node is overwritten before its availability is compared with the stored one (the comparison then sees no change)")
 		}
-		// the only returns that are not ReprocessAll on the changed path: handler errors
+		// conversely, a result other than ReprocessAll (or the error of a failed handler) needs availability unchanged:
+		// an extra condition on the re-sync (only the local node, only some label) is a lost re-sync
+		for _, rt := range g.Returns() {
+			res := retResults(rt)
+			if len(res) != 1 || isObjNamed(sn, ctrlPkg+".SyncStateReprocessAll", ctrlPkg+".SyncStateError")(res[0]) {
+				continue
+			}
+			x.Check("SetNode:other-result-needs-unchanged-availability", rt.Pos(), g.Dominated(rt, chk.GBool(false, changed)), "",
+				"SetNode can answer without a re-sync although isNodeAvailableChanged(c.nodes, node) is true (extra condition on the re-sync)")
+		}
 	}
 	ic := need(x, p, "speaker", "", "isNodeAvailableChanged")
 	if ic != nil {
